@@ -336,6 +336,7 @@ class PrintrunWriter(BaseWriter):
             self._logger.debug("Device message: %s", message)
 
             if lower_message.startswith(SUCCESS_PREFIXES):
+                self._parse_message(message)
                 self._ack_event.set()
                 return
             elif lower_message.startswith(ERROR_PREFIXES):
